@@ -304,6 +304,41 @@ pub fn run(ctx: &Ctx) {
             Ok(())
         },
     );
+    // frames of 257..1300 bytes whose first code byte equals the frame length modulo 256 (and neighbours)
+    {
+        ctx.par_range("first-code-vs-length-mod-256", (1300 - 257 + 1) * 3, move |i, l| {
+            let want_len = 257 + (i / 3) as usize;
+            let delta = (i % 3) as i64 - 1;
+            let c = ((want_len % 256) as i64 + delta).rem_euclid(256) as usize;
+            if c == 0 || c == 255 {
+                return Ok(());
+            }
+            // payload: c-1 non-zero bytes, a zero, then non-zero filler (with one more zero further on); length tuned so
+            // that the frame has exactly want_len bytes
+            for n in (want_len.saturating_sub(10))..=want_len {
+                let mut payload: Vec<u8> = (0..n).map(|k| 1 + (k % 250) as u8).collect();
+                if c - 1 < n {
+                    payload[c - 1] = 0;
+                }
+                if n > c + 300 {
+                    payload[c + 299] = 0;
+                }
+                let mut msg = crate::refcodec::ref_encode(&Shape::U64, &crate::dynshape::Value::U(0)).unwrap().bytes;
+                msg.clear();
+                msg.extend_from_slice(&payload);
+                let f = refcobs::frame(&msg);
+                if f.len() == want_len {
+                    l.class("first-code-near-length-mod-256");
+                    check(&Shape::Seq(Box::new(Shape::U8)), &f, i % 2 == 0, l)?;
+                    check(&Shape::ByteBuf, &f, i % 2 == 1, l)?;
+                    let mut with_tail = f.clone();
+                    with_tail.extend_from_slice(&[2, 5, 0]);
+                    return check(&Shape::Struct(Name("S"), vec![(Name("a"), Shape::Str), (Name("b"), Shape::Bytes)]), &with_tail, true, l);
+                }
+            }
+            Ok(())
+        });
+    }
     // very long frames: more than 254 full blocks (the difference between consumed and produced bytes exceeds a byte)
     {
         let lens: Vec<usize> = vec![64_515, 64_516, 64_517, 64_770, 65_024, 65_535, 65_536, 70_000, 130_000];
